@@ -537,6 +537,19 @@ pub fn s_mpp() -> Vec<WCfg> {
             c.downtimes_ms = vec![0, 30_000];
             out.push(c);
         }
+        // the wall clock was stepped back while the plugin was down: the stored attempt lies in the future
+        for back_s in [30u64, 3600] {
+            let mut c = base(&format!("S-mpp/hist-{}/clock-back-{}s", kind, back_s));
+            c.add_htlc("p1", 0, 300_000, 1_005_000);
+            c.add_htlc("p2", 0, 300_000, 1_005_000);
+            c.seed = seed_history(&c, kind, 0);
+            c.seed.wall_back_ms = back_s * 1000;
+            c.advance_menu_ms = vec![60_000, 59_999, 2, 30_000];
+            c.max_advances = 4;
+            c.max_crashes = 1;
+            c.downtimes_ms = vec![0, 30_000];
+            out.push(c);
+        }
     }
     out
 }
